@@ -36,6 +36,9 @@ PARTIAL = ["the abstract model assumes that the set of paths the child's reader 
            "child's selection set: traversal_state.refetch_paths vs refetched_paths_with_path) and that every transformed path is a key of the "
            "parent's map; the oracle checks the composition on the artifacts",
            "client pointers with variables are outside the generator's envelope (the compiler panics on them)",
+           "when the compiler's merged map holds several entries for one store key (its keys also compare the source locations inside object "
+           "values: `all(n: $n)` with n = {score: $s} next to `all(n: {score: $s})`; a C15 finding of the merge family) the refetch query is "
+           "built from one of them; the oracle accepts the selection of any one entry as well as their union",
            "the order of the keys is an input of the abstract model"]
 ASSUMPTIONS = ["a refetch query's wrapping fields form a chain of single linked fields / inline fragments above the re-fetched selection",
                "the selection of a refetchable type contains `id`, so the chain ends at the re-fetched selection"]
